@@ -105,6 +105,9 @@ def _handmade():
     out.append([d("a.d"), d("a"), d("a-d"), f("a.txt"), f("a.TXT"), f(".hidden")])
     # names above / at U+FFFF (emoji, mathematical letters): files still come before every sub-directory
     out.append([f("\U0001f600.txt"), d("a"), f("\uffff"), d("\U0001f600"), f("z"), d("\uffffd")])
+    # names that are not valid UTF-8 on disk (legacy latin-1 bytes): Python shows them with lone surrogates (surrogateescape);
+    # two such names differ, sort by code point, and must survive save / load like any other name
+    out.append([f("caf\udce9.txt"), f("caf\udce8.txt"), d("d\udcff", f("x\udce9")), f("cafe.txt")])
     out.append([])  # empty root folder
     out.append([d("only")])  # a single empty folder
     return out
